@@ -93,6 +93,7 @@ def axiom_audit(pid):
 # ---------------------------------------------------------------- running ops
 
 IMPL_CMD = None      # per-property override of the implementation side
+OP_DEADLINE = 120    # seconds one protocol operation may take in the Go harness
 REF_CMD = None       # C19: the reference implementation (Go library) the implementation (C++ port) must equal
 
 
@@ -110,7 +111,7 @@ def _run_chunk(args):
         try:
             with open(opsf) as fin:
                 p = subprocess.run(cmd, stdin=fin, stdout=subprocess.PIPE, stderr=subprocess.PIPE,
-                                   text=True, timeout=timeout, env=dict(os.environ, GOMEMLIMIT="3GiB"))
+                                   text=True, timeout=timeout, env=dict(os.environ, GOMEMLIMIT="3GiB", GFS_OP_DEADLINE=str(OP_DEADLINE)))
             lines = p.stdout.split("\n")
             if lines and lines[-1] == "":
                 lines.pop()
@@ -358,7 +359,8 @@ def main(argv):
         log(out)
         log("harness does not build against /repo")
         broken.append(("build", "go build harness", out[-1500:]))
-    global IMPL_CMD, REF_CMD
+    global IMPL_CMD, REF_CMD, OP_DEADLINE
+    OP_DEADLINE = cfg.get("op_deadline", 120)
     IMPL_CMD = cfg.get("impl_cmd")
     REF_CMD = cfg.get("ref_cmd")
     for hook in cfg.get("pre", []):
